@@ -254,9 +254,10 @@ func (e *Enc) alloc(x *ssa.Alloc) {
 func (e *Enc) initGhosts(r string, t types.Type) {
 	ts := types.TypeString(t, nil)
 	if ts == "strings.Builder" || ts == "bytes.Buffer" {
-		if g := e.w.cs.Ghosts["built"]; g != nil {
+		if g := e.w.cs.Ghosts["out"]; g != nil {
 			k := e.ghostKey(g)
-			e.set(k, store(e.get(e.st, k), r, "\"\""))
+			idx := fmt.Sprintf("(VRef %d %s)", e.w.so.typeID(types.NewPointer(t)), r)
+			e.setFresh(k, store(e.get(e.st, k), idx, "\"\""))
 		}
 	}
 }
